@@ -4,7 +4,7 @@ LEVEL = "model_checking"
 
 def run(ctx):
     sqlprop.laws(ctx, f"SqlLaws_agg_{ctx.tier}.cfg") if "C44" == "C27" else None
-    sqlprop.run_sql_property(ctx, corpus=['values'], seeded=[], quick_n=500,
+    sqlprop.run_sql_property(ctx, corpus=['values', 'valuesbig'], seeded=[], quick_n=500,
         rule='VALUES lists of 1-4 rows x 1-3 columns of int/string/double/boolean/date literals and NULLs (NULL-first columns included), used bare, as a derived table with projection/WHERE/ORDER BY, joined to a table (inner/left) and in IN (VALUES ...); Answer(values) in SqlSem is the listed rows as a bag.')
 
 def replay(ctx, obj):
